@@ -86,3 +86,27 @@ Fixpoint c07_trigger_walk (ib : c07_inbox) (tr : list fstep) : bool :=
   end.
 
 Definition c07_trigger_ok (cfg : vconfig) (tr : list fstep) : bool := c07_trigger_walk CiEmpty tr.
+
+(* ---- the monitored precondition c07_pre, exactly.  c07_pre (C07_Pred.v) is FALSE of the model when more
+   than WRAP_TOLERANCE sequence numbers were consumed across the 16-bit wrap since the last packet went
+   out (D4 class, Props/C07.c07_pre_monitor_refuted).  What holds of every reachable state: the true
+   modular distance of last_consumed from last_sent_ack_nr is between 1 and consumed_but_unacked_bytes
+   (every consumed ST_DATA carries at least one byte), as long as the trace goes on ... ---- *)
+Definition c07_live (st : fstep) : bool :=
+  match fs_result st with
+  | FrPoll PollPending _ _ _ => true
+  | FrPoll _ _ _ _ => false
+  | _ => true
+  end.
+
+Definition c07_dist_ok (cfg : vconfig) (st : fstep) : bool :=
+  let f := fs_post st in
+  if c07_live st && (0 <? f_cbu f) && (f_cbu f <? M16) then
+    let d := wsub16 (f_last_consumed f) (f_last_sent_ack_nr f) in
+    (1 <=? d) && (d <=? f_cbu f)
+  else true.
+
+(* ... hence c07_pre itself whenever at most WRAP_TOLERANCE bytes are unacknowledged (every connection whose
+   mss is at most 512, for instance: a completed poll leaves fewer than 2*mss) *)
+Definition c07_pre_monitor_g (cfg : vconfig) (st : fstep) : bool :=
+  if c07_poll_done st && (f_cbu (fs_post st) <=? WRAP_TOLERANCE) then c07_pre (fs_post st) else true.
